@@ -221,7 +221,9 @@ def stepApi (c : CS) (l : Line) : CS :=
           let adv := match s.choice with | .v2 => (rdBE rsp 23 4).getD 0 | .v12 => (rdBE rsp 14 4).getD 0
           if adv ≠ curBuf s then mism c s!"SPEC[bufsize-advertised] TPM {vname s.choice} advertises buffer size {adv}, SetBufferSize established {curBuf s}" else branch c "advertised/equal"
         else c
-      c
+      -- the command sent to a TPM that was not started yet is TPM_Startup: a TPM 1.2 deletes its saved state then, and with it a
+      -- save-state blob that is still cached
+      if l.nat "started" = 0 then { c with st := startupDone s } else c
   | "getinfo" =>
       let js := chars (l.bytes "json")
       let c := branch c s!"getinfo/{tag}/flags={l.nat "flags"}"
